@@ -290,33 +290,44 @@ Record body := mkBody {
   b_rem : Z;                 (* remainingContentLength *)
   b_has : bool;              (* hasContentLength *)
   b_violated : bool;         (* violatedContentLength *)
-  b_cancels : list (Z * Z)   (* (0 = CancelRead | 1 = CancelWrite, code) in call order *)
+  b_cancels : list (Z * Z);  (* (0 = CancelRead | 1 = CancelWrite, code) in call order *)
+  b_nocontent : bool         (* noContentExpected: response to HEAD, 1xx / 204 / 304 response *)
 }.
 
-Definition new_body (x : stream) (cl : Z) : body :=
-  if 0 <=? cl then mkBody x cl true false [] else mkBody x 0 false false [].
+Definition new_body (x : stream) (cl : Z) (nc : bool) : body :=
+  if 0 <=? cl then mkBody x cl true false [] nc else mkBody x 0 false false [] nc.
+
+Definition reset_message_error (b : body) : body :=
+  if b_violated b then b
+  else mkBody (b_str b) (b_rem b) (b_has b) true
+         (b_cancels b ++ [(0, h3ErrCodeMessageError); (1, h3ErrCodeMessageError)]) (b_nocontent b).
 
 Definition check_cl (b : body) : option err * body :=
   if negb (b_has b) then (None, b)
   else if (b_rem b <? 0) || ((b_rem b =? 0) && (0 <? x_rem (b_str b))) then
-    (Some ETooMuchData,
-     if b_violated b then b
-     else mkBody (b_str b) (b_rem b) (b_has b) true
-            (b_cancels b ++ [(0, h3ErrCodeMessageError); (1, h3ErrCodeMessageError)]))
+    (Some ETooMuchData, reset_message_error b)
   else (None, b).
 
 Definition replace_error (e : err) : err := match e with EStream a => EH3 a | _ => e end.
 
+Definition oerr_is_eof (e : option err) : bool := match e with Some e' => is_eof e' | None => false end.
+
+(** body.Read (repaired code): too much data => errTooMuchData; the stream ends (io.EOF) while
+    bytes of the declared Content-Length are still owed and the message is expected to carry
+    content => io.ErrUnexpectedEOF, both directions reset once with H3_MESSAGE_ERROR. *)
 Definition body_read (b : body) (blen : Z) : list Z * option err * body :=
   match check_cl b with
   | (Some e, b') => ([], Some e, b')
   | (None, _) =>
     let blen' := if b_has b then Z.min blen (b_rem b) else blen in
     let '(out, e, x') := stream_read (b_str b) blen' in
-    let b1 := mkBody x' (b_rem b - zlen out) (b_has b) (b_violated b) (b_cancels b) in
+    let b1 := mkBody x' (b_rem b - zlen out) (b_has b) (b_violated b) (b_cancels b) (b_nocontent b) in
     match check_cl b1 with
     | (Some e', b2) => (out, Some e', b2)
-    | (None, _) => (out, option_map replace_error e, b1)
+    | (None, _) =>
+      if oerr_is_eof e && b_has b1 && (0 <? b_rem b1) && negb (b_nocontent b1)
+      then (out, Some EUnexpectedEOF, reset_message_error b1)
+      else (out, option_map replace_error e, b1)
     end
   end.
 
